@@ -17,6 +17,9 @@ import json, os, sys, subprocess, time, hashlib, shutil, glob, re
 VERIF = os.path.dirname(os.path.abspath(__file__))
 REPO = os.environ.get("VERIF_REPO", "/repo")
 WORK = os.environ.get("VERIF_WORK", os.path.join(VERIF, ".work"))
+# where evidence/ and replays/ are written; only the seeded-change matrix overrides it (runs against a
+# scratch worktree with a change applied must not overwrite the evidence of the real tree)
+OUT_ROOT = os.environ.get("VERIF_OUT_ROOT", VERIF)
 MODPATH = "github.com/sanonone/kektordb"
 NCPU = os.cpu_count() or 4
 
@@ -285,7 +288,7 @@ def merge_and_report(cid, tier, spec, frags, failed_shards, workdir, seed, build
             lines.append("KNOWN-FINDING: property=%s %s — %s" % (cid, sig, known[(cid, sig)]))
         else:
             new_vio.append(v)
-    rdir = os.path.join(VERIF, "replays", cid)
+    rdir = os.path.join(OUT_ROOT, "replays", cid)
     MAXREP = 30
     if len(new_vio) > MAXREP:
         lines.append("(%d distinct violation signatures; writing replay artefacts for the first %d)" % (len(new_vio), MAXREP))
@@ -380,8 +383,8 @@ def merge_and_report(cid, tier, spec, frags, failed_shards, workdir, seed, build
         "coverage": coverage, "assumptions": spec.get("assumptions", []),
         "wall_s": round(wall, 2), "violations": len(new_vio) + (1 if rc == 1 and not new_vio else 0),
     }
-    os.makedirs(os.path.join(VERIF, "evidence"), exist_ok=True)
-    with open(os.path.join(VERIF, "evidence", cid + ".json"), "w") as f:
+    os.makedirs(os.path.join(OUT_ROOT, "evidence"), exist_ok=True)
+    with open(os.path.join(OUT_ROOT, "evidence", cid + ".json"), "w") as f:
         json.dump(ev, f, indent=1, sort_keys=True)
     for l in lines:
         print(l)
